@@ -39,17 +39,25 @@ def validate_before_serialise(ctx, cg):
     sinks = dom.nodes_calling(g, lambda c: dotted(c.func) == 'ET.tostring')
     if not sinks:
         raise AnalysisError("XMLElement.to_string: no ET.tostring call found (serialisation sink vanished)")
-    gates = dom.nodes_calling(g, lambda c: unparse(c.func) == 'self._final_checks')
+    from ..rules.mustfx import MustFx
+    mx = ctx.lazy('mustfx-checked', lambda: MustFx(cg, CHECKED))
+    gates = mx.nodes_with(ts, lambda l: l[0] == 'call' and l[1] == 'XMLElement._final_checks' and l[2] == 'self')
     for s in sinks:
         p = g.must_pass(s, gates, edge_ok=on)
         res.check(p is None, 'R-DOM.validate-before-serialise', ts.fq, "ET.tostring is dominated by self._final_checks(...) when xsd_check is on",
                   fail_detail='path without the check: ' + ' -> '.join(n.text() for n in (p or [])[:8]),
                   key='R-DOM.validate-before-serialise|to_string', line=s.line)
-    for gt in gates:
+    direct = dom.nodes_calling(g, lambda c: unparse(c.func) == 'self._final_checks')
+    for gt in direct:
         c = [x for e in gt.exprs() for x in walk_local(e) if isinstance(x, ast.Call) and unparse(x.func) == 'self._final_checks'][0]
         kw = {k.arg: unparse(k.value) for k in c.keywords}
         ok = kw.get('intelligent_choice') == 'intelligent_choice' or [unparse(a) for a in c.args] == ['intelligent_choice']
         res.check(ok, 'R-DOM.validate-before-serialise', ts.fq, "the caller's intelligent_choice is passed to the final checks", key='R-DOM.validate-before-serialise|arg')
+    if not direct:
+        # through a helper: the helper's call must receive our parameter
+        lab_ok = bool(mx.nodes_with(ts, lambda l: l[0] == 'call' and l[1] == 'XMLElement._final_checks' and l[2] == 'self' and
+                                    (('param', 1) in l[3] or l[3] == ())))
+        res.check(lab_ok, 'R-DOM.validate-before-serialise', ts.fq, "the caller's intelligent_choice reaches the final checks", key='R-DOM.validate-before-serialise|arg')
     # the serialised object is the tree rebuilt *after* the checks
     builds = dom.nodes_with(g, lambda x: (isinstance(x, ast.Call) and unparse(x.func) == 'self._create_et_xml_element') or
                             (isinstance(x, ast.Attribute) and unparse(x) == 'self.et_xml_element'))
@@ -217,7 +225,7 @@ def leaf_name_ownership(ctx, cg, ef):
             if w.field in LEAF_FIELDS:
                 writers.setdefault(f, []).append(w)
     for f, ws in writers.items():
-        res.check(f.qualname.split('.<locals>')[0] in LEAF_OWNERS, 'R-OWN.leaf', f.fq, "writer of XSDElement._xml_elements is one of the owner functions",
+        res.check(dom.owner_or_helper(cg, f, LEAF_OWNERS), 'R-OWN.leaf', f.fq, "writer of XSDElement._xml_elements is one of the owner functions",
                   fail_detail=f"{short(ws[0].node, 80)}; owners: {sorted(LEAF_OWNERS)}", key=f"R-OWN.leaf|writer|{f.qualname}", line=ws[0].node.lineno)
     res.floor('R-OWN.leaf writers', len(writers), 4)
     # add_xml_element: append after the name test
